@@ -471,7 +471,7 @@ def tasks(tier):
                 if q and nv in (2, 4) and rep == "bin4" and tuple(g["n"]) != (2, 1, 1):
                     continue
                 t.append(dict(harness="h_roundtrip", cfg=cfg, limits=big))
-    for g in geos[:2] if q else geos:
+    for g in geos:
         for version, rep in ((1, "bin4"), (1, "bin8"), (2, "bin4"), (2, "bin8"), (1, "txt"), (2, "txt")):
             for nv in ((1, 3) if version == 2 else (3,)):
                 t.append(dict(harness="h_foreign", cfg=dict(n=g["n"], box=[[float(v) for v in g["box"][0]], [float(v) for v in g["box"][1]]], version=version, rep=rep, nvdim=nv,
